@@ -19,7 +19,7 @@ PROP = "C12"
 PROP_FILE = "C12_Fmt"
 THEOREMS = ["c12_validator_sound_complete", "c12_comments", "c12_tokens", "c12_tokens_parse",
             "c12_fmt_ok_equivalence", "c12_reformat_preserves", "c12_idem_partial", "c12_lex_join",
-            "c12_join_preserves"]
+            "c12_join_preserves", "c12_tokens_relex", "c12_idem_canonical"]
 
 MANIFEST = {
     "text": "Relational specification of the formatter as a verified validator: a Gallina lexer for the formatter's token regexes with comments as first-class items (model/Fmt.v clex); fmt_ok inp out := both lex to the same token+comment sequence.  Proved for all texts: the executable validator decides fmt_ok; fmt_ok implies equal comment sequences and equal token sequences (hence equal results of any parser that is a function of the tokens); fmt_ok is an equivalence, so re-formatting any number of times preserves; idempotence without comments follows from two facts about the implementation (F1 output depends only on tokens, F2 outputs validate) that are validated on every run (partial).  Tied to /repo by running the extracted validator on every (input, output) pair produced by policies_str_to_pretty over a width x indent grid, by comparing the model lexer with the formatter's logos token stream, and by an implementation-level oracle (structural parse comparison, independent comment scanner, idempotence, respacing, re-formatting).",
@@ -46,7 +46,9 @@ def random_sets(rng, n_sets, depth, stats):
     for si in range(n_sets):
         w = gen.World(rng, n_entities=0)
         nl = rng.random() < 0.25
-        pols = [fmtgen.policy_toks(rng, w, depth, nl_strings=nl, stats=stats) for _ in range(rng.choice([1, 1, 2, 3, 4]))]
+        ptc = 0.15 if rng.random() < 0.2 else 0.0      # a fifth of the sets has trailing commas
+        pols = [fmtgen.policy_toks(rng, w, depth, nl_strings=nl, stats=stats, p_trailing_comma=ptc)
+                for _ in range(rng.choice([1, 1, 2, 3, 4]))]
         g = "set%d" % si
         # two comment-free spacings of the same tokens (F1), a lightly and a heavily commented text
         cases.append(mk_case("plain", [fmtgen.assemble(rng, p) for p in pols], group=g))
@@ -64,6 +66,14 @@ KITCHEN = [
     'context [ "a b" ] like "x*y" } unless { if principal is User in NS::Group::"g" then - 1 + 2 * 3 == 7 '
     'else [ 1 , { k : "v" , "k 2" : decimal ( "1.5" ) . lessThan ( decimal ( "2.0" ) ) } ] . contains ( 1 ) } ;',
     'forbid ( principal in ?principal , action , resource == ?resource ) when { ! ! true != false } ;',
+    # more grammar positions: annotation without value between annotations with values, has-chain, nested if /
+    # else-if, index access, negative literals, nested records and sets, `is` without `in`, several conditions,
+    # namespaced entity types, function-style and method-style extension calls, `like` with escapes
+    '@a ( "1" ) @b @c ( "// no" ) forbid ( principal is NS::Group , action == Action::"x y" , resource in Photo::"p" ) '
+    'when { principal has a . b . c && resource [ "k" ] . f has "x y" } '
+    'unless { if context . n >= - 2 then true else if ! context . b then [ ] . isEmpty ( ) else { r : { s : [ - 1 , 2 ] } } . r . s '
+    '. containsAny ( [ 3 ] ) } '
+    'when { context . s like "a\\*b*\\u{1F600}" || ip ( "10.0.0.1" ) . isInRange ( ip ( "10.0.0.0/8" ) ) && principal is User } ;',
 ]
 
 
@@ -121,6 +131,11 @@ def eof_stream(rng):
 
 
 TRAILING_COMMA = [
+    'permit(principal, action, resource, // c\n// d\n) // e\nwhen { true };',
+    'permit(principal, action, resource) when { [1 // a\n, // b\n] == [] };',
+    'permit(principal, action, resource) when { {a: 1 // a\n// x\n, // b\n// y\n} == {} };',
+    'permit(principal, action in [Action::"a", // c\n], resource) when { [[1, // c1\n], // c2\n].isEmpty() };',
+    '@id("t") permit(principal == ?principal, action, resource in ?resource, // slot\n);',
     'permit(principal, action, resource) when { [1, // c\n].contains(1) };',
     'permit(principal, action, resource) when { {a: 1, // c\n}.a == 1 };',
     'permit(principal, action, resource) when { principal.contains(1, // c\n) };',
